@@ -260,7 +260,6 @@ class _Dialect(type):
     def __new__(cls, clsname, bases, attrs):
         klass = super().__new__(cls, clsname, bases, attrs)
         enum = Dialects.__members__.get(clsname.upper())
-        cls._classes[enum.value if enum is not None else clsname.lower()] = klass
 
         klass.TIME_TRIE = new_trie(klass.TIME_MAPPING)
         klass.FORMAT_TRIE = (
@@ -356,6 +355,11 @@ class _Dialect(type):
             *klass.DATE_PART_MAPPING.keys(),
             *klass.DATE_PART_MAPPING.values(),
         }
+
+        # Publish the class only once it is fully built: lookups from other threads that find
+        # the key skip loading, so an earlier registration would hand them a half-initialized
+        # dialect (base tokenizer / parser / generator)
+        cls._classes[enum.value if enum is not None else clsname.lower()] = klass
 
         return klass
 
